@@ -298,6 +298,53 @@ type c01Corruption struct {
 	Entry   string   `json:"entry"` // GetBlob, GetManifest, GetTag
 	Content []byte   `json:"content"`
 	Mods    []string `json:"corruptions"`
+	Drain   string   `json:"drain,omitempty"` // how the consumer reads: "" = io.ReadAll, "copy-buffer", "copy-writer", "byte-reads", "one-big-read"
+}
+
+// plainWriter hides every optional interface of the destination (no ReadFrom).
+type plainWriter struct{ b *bytes.Buffer }
+
+func (w plainWriter) Write(p []byte) (int, error) { return w.b.Write(p) }
+
+// c01Drain consumes a reader to its end the way callers do; every way must report a mismatch.
+func c01Drain(rd io.Reader, mode string) ([]byte, error) {
+	switch mode {
+	case "copy-buffer":
+		var b bytes.Buffer
+		_, err := io.Copy(&b, rd) // uses rd's WriteTo when it has one, else the buffer's ReadFrom
+		return b.Bytes(), err
+	case "copy-writer":
+		var b bytes.Buffer
+		_, err := io.Copy(plainWriter{&b}, rd)
+		return b.Bytes(), err
+	case "byte-reads":
+		var out []byte
+		one := make([]byte, 1)
+		for {
+			n, err := rd.Read(one)
+			out = append(out, one[:n]...)
+			if err == io.EOF {
+				return out, nil
+			}
+			if err != nil {
+				return out, err
+			}
+		}
+	case "one-big-read":
+		big := make([]byte, 1<<16)
+		var out []byte
+		for {
+			n, err := rd.Read(big)
+			out = append(out, big[:n]...)
+			if err == io.EOF {
+				return out, nil
+			}
+			if err != nil {
+				return out, err
+			}
+		}
+	}
+	return io.ReadAll(rd)
 }
 
 func c01Mods(n int) []string {
@@ -412,7 +459,7 @@ func c01RunCorruption(r *vcore.Run, c c01Corruption) {
 			return
 		}
 		desc := rd.Descriptor()
-		data, rerr := io.ReadAll(rd)
+		data, rerr := c01Drain(rd, c.Drain)
 		rd.Close()
 		if rerr != nil {
 			r.Outcome("read-error")
@@ -424,7 +471,11 @@ func c01RunCorruption(r *vcore.Run, c c01Corruption) {
 			for i, m := range c.Mods {
 				classes[i] = strings.TrimRight(m, "0123456789")
 			}
-			r.Violate("corrupt", fp+"/mismatch-with-clean-eof/"+strings.Join(classes, "+"), c, "an error before end of stream",
+			how := ""
+			if c.Drain != "" {
+				how = "/" + c.Drain
+			}
+			r.Violate("corrupt", fp+"/mismatch-with-clean-eof/"+strings.Join(classes, "+")+how, c, "an error before end of stream",
 				fmt.Sprintf("clean EOF after %q (%d bytes) with descriptor %s", data, len(data), descText(desc)))
 			return
 		}
@@ -529,6 +580,18 @@ func c01Check(r *vcore.Run) vcore.Coverage {
 					corr = append(corr, c01Corruption{Entry: entry, Content: content, Mods: []string{m1, m2}})
 				}
 			}
+		}
+	}
+	// every way of consuming the reader (io.ReadAll, io.Copy with and without the reader's own WriteTo
+	// being usable, byte-sized reads, one oversized read)
+	base := len(corr)
+	for _, drain := range []string{"copy-buffer", "copy-writer", "byte-reads", "one-big-read"} {
+		for _, c := range corr[:base] {
+			if len(c.Mods) == 2 && !r.Thorough() && drain != "copy-buffer" {
+				continue
+			}
+			c.Drain = drain
+			corr = append(corr, c)
 		}
 	}
 	vcore.ParallelN(len(corr), func(i int) { c01RunCorruption(r, corr[i]) })
